@@ -169,11 +169,17 @@ def scanner_obligations(ctx, rule_prefix: str = "") -> bool:
         if s.hay_def is not None:
             cfg0 = s.cfg
             evals = [y] + [st0 for st0 in statements(f.node) if isinstance(st0, ast.Assign) and any(isinstance(n0, ast.Call) and dotted(n0.func) == "len" and n0.args and dotted(n0.args[0]) == s.carry for n0 in ast.walk(st0.value))]
+            hn = cfg0.node(s.hay_def)
             for ev in evals:
                 est = s.fv.stmt_of(ev) if not isinstance(ev, ast.stmt) else ev
+                if not cfg0.has(est):
+                    continue
+                en = cfg0.node(est)
+                # the length may be taken after the concatenation (hay_def .. est) or before it in the same round
+                # (est .. hay_def, est dominating the concatenation): in either case no rebinding of the carry in between
+                first, second = (en, hn) if en != hn and cfg0.dominates(en, hn) and not cfg0.dominates(hn, en) else (hn, en)
                 for dst, _v in assignments_to(f.node, s.carry):
-                    if cfg0.has(dst) and cfg0.has(est) and cfg0.reaches(cfg0.node(s.hay_def), cfg0.node(dst)) and cfg0.reaches(cfg0.node(dst), cfg0.node(est), avoiding=[cfg0.node(s.hay_def)]) \
-                            and cfg0.reaches(cfg0.node(s.hay_def), cfg0.node(dst), avoiding=[cfg0.node(est)]):
+                    if cfg0.has(dst) and cfg0.reaches(first, cfg0.node(dst), avoiding=[second]) and cfg0.reaches(cfg0.node(dst), second, avoiding=[first]):
                         stale = True
         if poly is not None and posvar and pvar:
             base = SymPoly.atom(posvar) + SymPoly.atom(pvar)
